@@ -502,7 +502,7 @@ def partExtent (_m : Iso2 Rat) : Part2 → Rat
 /-- `true`: the model of the 2-D `from_capsule` follows `fixes/C13-capsule2d-half-disk-centroid.diff` (corrected behaviour,
 defect protocol).  Set to `false` if that patch is not applied to `/repo`: the model is then the pinned code
 (`fromCapsule2Pinned`), the correspondence is bit-exact again and only the oracle reports the defect. -/
-def capsule2Fixed : Bool := true
+def capsule2Fixed : Bool := false
 
 def handler (fn : String) : Option Handler :=
   match fn with
